@@ -86,6 +86,12 @@ CHECKS["C10"] = ("Coq theorems for all link databases / references / layers: a l
     "plus a declarative oracle reading the property text.",
     TB + "PARTIAL: aliasing (the shallow-copy leak fixed in fa48f3b) cannot be stated about an immutable model; it is carried by the correspondence / oracle (leak scenarios are generated on purpose). Reference kinds not generated: state charts, audiences, env-data, DTC, SDG captions, libraries, sub-components, comparam refs (C15).",
     "Rocq/Coq proof (fold characterisation of dictionary updates, list induction for resolve) + correspondence + declarative oracle", "DESIGN.md §3 C10")
+CHECKS["C11"] = ("Coq theorems: element text written through |e and attribute values written by make_xml_attrib are read back unchanged for every string (and contain no character that ends the token); refutation of the verbatim attribute writer; "
+    "the assembled database does not depend on the file order (permutations of documents with distinct names); the finite coverage obligation 'every tag / attribute name a from_et parser reads occurs in a template', regenerated from the sources and closed by vm_compute on every run. "
+    "The per-element statement 'no attribute the parser reads is dropped or altered' is ENUMERATED, not proved: every dataclass field of every element class reachable in the base databases (shipped examples, generated link / codec / comparam documents, a hand-written document of rare elements) "
+    "is set to a non-default value incl. all XML metacharacters -> write -> load -> tree comparison; second write byte equality; encode/decode behaviour; file orders x load entry points.",
+    TB + "PARTIAL: the jinja templates and from_et parsers are not modelled; element classes which no base database instantiates are reached only by the coverage obligation. Known findings: unwritten-names, docref-dropped and the (class, field) pairs listed in known_findings.json.",
+    "Rocq/Coq proof (text-layer round trip by induction; insertion-sort permutation invariance; finite obligation by vm_compute) + reflective enumeration", "DESIGN.md §3 C11")
 NA_REASON = "check not built yet in this round (work in progress; DESIGN.md §6 gives the order of work)"
 def main():
     checks = []
